@@ -105,11 +105,12 @@ Record UInv (tr : list tev) (x : option nat) (i : nat) (a : actor) : Prop := mkU
   U2 : a_pc a = NotCreated -> forall ks, a_kids a = Some ks -> ks = [];
   U3 : started_ok i tr = true \/ entered_post_start i tr = true -> a_notify a = true;
   U4 : callbacks_over i tr = true \/ ended i tr = true -> a_armed a = false \/ x = Some i;
-  U5 : a_pc a = Spawned -> a_notify a = true;
+  U5 : pre_pc (a_pc a) = false -> a_pc a <> Done -> a_notify a = true;
   U6 : a_sig a = true -> a_sig_taken a = true;
   U7 : a_ports a = false -> a_pc a = Done;
   U8 : a_armed a = false -> a_pc a = Done;
-  U9 : a_sig_taken a = true -> a_sig a = true \/ a_pc a = Done \/ x = Some i
+  U9 : a_sig_taken a = true -> a_sig a = true \/ a_pc a = Done \/ x = Some i;
+  U10 : pre_pc (a_pc a) = true -> a_notify a = false
 }.
 
 Record CInv (x : option nat) (w : world) (c : nat) (a : actor) (s : nat) : Prop := mkCInv {
@@ -131,8 +132,8 @@ Ltac uinv_tac :=
   match goal with H : UInv _ _ _ _ |- _ =>
     let u1 := fresh "u1" in let u2 := fresh "u2" in let u3 := fresh "u3" in let u4 := fresh "u4" in
     let u5 := fresh "u5" in let u6 := fresh "u6" in let u7 := fresh "u7" in let u8 := fresh "u8" in
-    let u9 := fresh "u9" in
-    destruct H as [u1 u2 u3 u4 u5 u6 u7 u8 u9] end;
+    let u9 := fresh "u9" in let u10 := fresh "u10" in
+    destruct H as [u1 u2 u3 u4 u5 u6 u7 u8 u9 u10] end;
   constructor; simpl in *; auto.
 
 Lemma blocked_tag x x' w s : (x' = x \/ x = None) -> blocked x w s -> blocked x' w s.
@@ -150,9 +151,9 @@ Lemma UInv_emit tr x x' i a e :
   (p_over i e = true \/ p_end i e = true -> a_armed a = false \/ x' = Some i) ->
   UInv (tr ++ [e]) x' i a.
 Proof.
-  intros [u1 u2 u3 u4 u5 u6 u7 u8 u9] Hx Hn Ha.
+  intros [u1 u2 u3 u4 u5 u6 u7 u8 u9 u10] Hx Hn Ha.
   assert (Htag : x = Some i -> x' = Some i) by (intros E; destruct Hx as [ -> | -> ]; [exact E|discriminate]).
-  constructor; [|exact u2| | |exact u5|exact u6|exact u7|exact u8|].
+  constructor; [|exact u2| | |exact u5|exact u6|exact u7|exact u8| |exact u10].
   - intros L. destruct (u1 L) as [A|[A|A]]; auto.
   - rewrite sok_app, eps_app. intros [A|A]; apply orb_true_iff in A as [A|A]; auto.
   - assert (Hold : callbacks_over i tr = true \/ ended i tr = true -> a_armed a = false \/ x' = Some i).
@@ -285,10 +286,10 @@ Qed.
 Lemma UInv_retag tr x x' i j a (b' : actor) :
   UInv tr x j a -> tagrel x x' i b' -> j <> i -> UInv tr x' j a.
 Proof.
-  intros [u1 u2 u3 u4 u5 u6 u7 u8 u9] Ht Hne.
+  intros [u1 u2 u3 u4 u5 u6 u7 u8 u9 u10] Ht Hne.
   assert (Htag : x = Some j -> x' = Some j).
   { intros E. destruct Ht as [ -> |[ -> |(-> & _ & _)]]; [exact E|discriminate|congruence]. }
-  constructor; [|exact u2|exact u3| |exact u5|exact u6|exact u7|exact u8|].
+  constructor; [|exact u2|exact u3| |exact u5|exact u6|exact u7|exact u8| |exact u10].
   - intros L. destruct (u1 L) as [A|[A|A]]; auto.
   - intros L. destruct (u4 L) as [A|A]; auto.
   - intros L. destruct (u9 L) as [A|[A|A]]; auto.
@@ -570,7 +571,7 @@ Proof.
   eapply tinv_pw with (x := x); [exact H|exact Hpw| | |].
   - intros j a _. destruct (Ftc_fields p ks j a) as (A & B & _). auto.
   - intros j a Ea Ua. destruct (Ftc_fields p ks j a) as (_ & _ & F3 & F4 & F5 & F6 & F7 & F8 & F9 & F10 & _).
-    destruct Ua as [u1 u2 u3 u4 u5 u6 u7 u8 u9].
+    destruct Ua as [u1 u2 u3 u4 u5 u6 u7 u8 u9 u10].
     constructor; rewrite ?F3, ?F4, ?F5, ?F6, ?F7, ?F8, ?F9; auto.
     intros Epc ks' Ek'. destruct F10 as [E|E]; rewrite E in Ek'; [eauto|discriminate].
   - intros c a s Ea El Ca. destruct (Ftc_fields p ks c a) as (_ & _ & F3 & F4 & _ & F6 & _ & _ & _ & _ & F11).
@@ -637,7 +638,7 @@ Proof.
   - intros j b Eb. destruct (Nat.eq_dec j i) as [->|Hne].
     + destruct (Hi b Eb) as (A & B & _). auto.
     + destruct (Ho j b Hne Eb) as (A & B & _). auto.
-  - intros j b Eb [u1 u2 u3 u4 u5 u6 u7 u8 u9]. destruct (Nat.eq_dec j i) as [->|Hne].
+  - intros j b Eb [u1 u2 u3 u4 u5 u6 u7 u8 u9 u10]. destruct (Nat.eq_dec j i) as [->|Hne].
     + destruct (Hi b Eb) as (_ & _ & F3 & F4 & F5 & F6 & F7).
       constructor; rewrite ?F3, ?F4, ?F5, ?F6, ?F7; auto; try (intros; discriminate).
     + destruct (Ho j b Hne Eb) as (_ & _ & F3 & F4 & F5 & F6 & _ & F8 & F9 & F10 & F11).
@@ -746,4 +747,447 @@ Proof.
     + intros j b Hne _. assert (Hb : Nat.eqb i j = false) by (apply Nat.eqb_neq; congruence). rewrite Hb.
       repeat split; auto. intros ks' E. exists ks'. auto.
     + intros b _. rewrite Nat.eqb_refl. simpl. repeat split; reflexivity.
+Qed.
+
+Lemma tinv_retag links w i : TInv links None w -> TInv links (Some i) w.
+Proof.
+  intros H. eapply tinv_pw with (x := None) (F := fun _ a => a); [exact H|apply pw_refl| | |].
+  - auto.
+  - intros j b Eb [u1 u2 u3 u4 u5 u6 u7 u8 u9 u10].
+    constructor; auto.
+    + intros L. destruct (u1 L) as [A|[A|A]]; auto. discriminate.
+    + intros L. destruct (u4 L) as [A|A]; auto. discriminate.
+    + intros L. destruct (u9 L) as [A|[A|A]]; auto. discriminate.
+  - intros c b s Eb El Cb.
+    eapply cinv_keep; [exact Cb|reflexivity|auto|apply blocked_tag; auto|auto|auto|auto|auto|auto].
+Qed.
+
+Lemma tinv_finish links w i a e :
+  TInv links (Some i) w -> get w i = Some a -> a_armed a = true ->
+  is_terminal e = true -> about e = i -> TInv links None (finish w i e).
+Proof.
+  intros H Eg Harm Ht Ea. unfold finish.
+  pose proof (cleanup_dead4 w i a (Some e) Eg Harm) as D.
+  apply tinv_emit with (x := None); auto; try (intros ? ? [A|A]; discriminate); try (intros; discriminate).
+  - eapply tinv_cleanup; eauto.
+  - intros j b [A|A] Eb; [discriminate|]. simpl in A. apply Nat.eqb_eq in A. subst j.
+    unfold dead in D. rewrite Eb in D. auto.
+Qed.
+
+Lemma tinv_start_failed links w i a :
+  TInv links (Some i) w -> get w i = Some a -> a_armed a = true -> a_notify a = false ->
+  TInv links None (start_failed w i).
+Proof.
+  intros H Eg Harm Hn. unfold start_failed.
+  apply tinv_emit with (x := None); auto; try (intros ? ? [A|A]; discriminate); try (intros; discriminate).
+  eapply tinv_cleanup; eauto. intros N. congruence.
+Qed.
+
+Lemma tinv_killed_exit links w i a c :
+  TInv links (Some i) w -> get w i = Some a -> a_armed a = true ->
+  (c = Some PreStart -> a_notify a = false) ->
+  TInv links None (killed_exit w i c).
+Proof.
+  intros H Eg Harm Hc. unfold killed_exit.
+  set (w1 := terminate w i).
+  assert (H1 : TInv links (Some i) w1) by (apply tinv_terminate; exact H).
+  assert (S1 : sil w w1) by apply sil_terminate.
+  destruct (sil_get w w1 i a S1 Eg) as (a1 & Eg1 & R1).
+  assert (Harm1 : a_armed a1 = true) by (rewrite (s_armed _ _ R1); exact Harm).
+  assert (Hfin5 : forall e, is_terminal e = true -> about e = i ->
+            TInv links None (finish (upd w1 i (fun a0 => upd_status a0 5)) i e)).
+  { intros e Ht Ea. eapply tinv_finish with (a := upd_status a1 5); auto.
+    - eapply tinv_upd_plain with (a := a1); eauto.
+      + clear. uinv_tac.
+      + unfold blocked. rewrite get_upd_same, Eg1. simpl. auto.
+    - rewrite get_upd_same, Eg1. reflexivity. }
+  destruct c as [[| |m|e|]|]; try (apply Hfin5; reflexivity); try (eapply tinv_finish; eauto; reflexivity).
+  eapply tinv_start_failed; eauto. rewrite (s_notify _ _ R1). auto.
+Qed.
+
+Definition quiet_fields (a a' : actor) : Prop :=
+  a_cfg a' = a_cfg a /\ a_armed a' = a_armed a /\ a_sup a' = a_sup a /\ a_notify a' = a_notify a
+  /\ a_sig a' = a_sig a /\ a_sig_taken a' = a_sig_taken a /\ a_ports a' = a_ports a
+  /\ a_kids a' = a_kids a /\ a_pc a' = a_pc a.
+
+(* the pending signal is consumed and the actor leaves *)
+Lemma tinv_sig_exit links w i a F c :
+  TInv links None w -> get w i = Some a -> a_armed a = true ->
+  quiet_fields a (F a) -> a_supq (F a) = a_supq a ->
+  (c = Some PreStart -> a_notify a = false) ->
+  TInv links None (killed_exit (upd w i (fun a0 => upd_sig (F a0) false true)) i c).
+Proof.
+  intros H Eg Harm (Fc & Fa & Fs & Fn & Fsig & Ft & Fp & Fk & Fpc) Fq Hc.
+  pose proof (t_act _ _ _ H i a Eg) as Ua.
+  eapply tinv_killed_exit with (a := upd_sig (F a) false true).
+  - eapply tinv_upd with (x := None) (a := a); [exact H|exact Eg|exact Fq|exact Fc| |right; left; reflexivity| |].
+    + intros _. destruct Ua as [u1 u2 u3 u4 u5 u6 u7 u8 u9 u10].
+      constructor; simpl; rewrite ?Fa, ?Fn, ?Fp, ?Fk, ?Fpc; auto; try (intros; discriminate).
+    + unfold blocked. rewrite get_upd_same, Eg. simpl. auto.
+    + intros s El Ci.
+      assert (EK : forall s0, K (upd w i (fun a0 => upd_sig (F a0) false true)) s0 = K w s0).
+      { intros s0. apply (K_pw_same _ w _ s0 (pw_upd w i _)). intros j b Eb. cbv beta.
+        destruct (Nat.eqb_spec i j) as [<-|]; auto. rewrite Eg in Eb. injection Eb as <-. exact Fq. }
+      eapply cinv_keep;
+        [exact Ci|reflexivity|intros y; rewrite EK; auto| |simpl; congruence| |intros _ _; left; simpl; exact Fs
+        |simpl; congruence|simpl; intros D; left; congruence].
+      * apply blocked_upd with (a := a); [exact Eg|right; left; reflexivity|].
+        unfold blocked. rewrite get_upd_same, Eg. simpl. auto.
+      * unfold linkedp. simpl. rewrite Fn, Fc, Fpc. auto.
+  - rewrite get_upd_same, Eg. reflexivity.
+  - simpl. congruence.
+  - intros E. simpl. rewrite Fn. auto.
+Qed.
+
+(* a callback starts (the signal is not pending) *)
+Lemma tinv_enter links w i a F c :
+  TInv links None w -> get w i = Some a -> a_sig a = false -> a_armed a = true ->
+  start_from (a_pc a) c -> quiet_fields a (F a) ->
+  (5 <= a_status (F a) -> c = PostStop) ->
+  (match c with
+   | Sup e => a_supq a = e :: a_supq (F a)
+   | Handle _ => a_supq a = [] /\ a_supq (F a) = []
+   | _ => a_supq (F a) = a_supq a end) ->
+  (c = PreStart -> c_local (a_cfg a) = true -> forall s, c_link (a_cfg a) = Some s -> a_sup a = Some s) ->
+  TInv links None (enter (upd w i F) i c).
+Proof.
+  intros H Eg Hsig Harm Hfrom (Fc & Fa & Fs & Fn & Fsig & Ft & Fp & Fk & Fpc) Hst Fq Hloc.
+  pose proof (t_act _ _ _ H i a Eg) as Ua.
+  assert (Hq : a_pc a = NotStarted \/ a_pc a = Spawned \/ a_pc a = Idle).
+  { unfold start_from in Hfrom. destruct (a_pc a); try tauto; destruct c; tauto. }
+  unfold enter. rewrite get_upd_same, Eg. cbn [option_map].
+  destruct (script_of (upd w i F) (F a) c) as [es f].
+  match goal with |- TInv _ _ (upd (emit _ _) i (fun a0 => upd_pc a0 (InCb c ?ES f false))) =>
+    set (es' := ES) end.
+  rewrite upd_emit, upd_upd.
+  set (G := fun a0 => upd_pc (F a0) (InCb c es' f false)).
+  assert (UG : UInv (trace_of w) None i (G a)).
+  { destruct Ua as [u1 u2 u3 u4 u5 u6 u7 u8 u9 u10]. unfold G.
+    constructor; simpl; rewrite ?Fa, ?Fn, ?Fp, ?Fk, ?Fsig, ?Ft.
+    - intros L. right; left. rewrite (Hst L). eauto.
+    - intros; discriminate.
+    - exact u3.
+    - exact u4.
+    - intros P _. destruct c; try discriminate P;
+        (apply u5; [|destruct Hq as [E|[E|E]]; rewrite E; discriminate];
+         unfold start_from in Hfrom; destruct (a_pc a); try contradiction; reflexivity).
+    - exact u6.
+    - intros P. apply u7 in P. destruct Hq as [E|[E|E]]; congruence.
+    - intros P. rewrite Harm in P. discriminate.
+    - intros P. destruct (u9 P) as [A|[A|A]]; [left; exact A| |discriminate].
+      destruct Hq as [E|[E|E]]; congruence.
+    - intros P. destruct c; try discriminate. apply u10.
+      unfold start_from in Hfrom. destruct (a_pc a); try contradiction; reflexivity. }
+  assert (Hnb : ~ blocked None w i).
+  { unfold blocked. rewrite Eg. intros [A|[A|[(r & f0 & p & A)|A]]]; try congruence;
+      destruct Hq as [E|[E|E]]; congruence. }
+  assert (Hupd : a_supq (G a) = a_supq a -> c <> PreStart -> TInv links None (upd w i G)).
+  { intros Eq Hc.
+    apply (tinv_upd_plain links None w i G a H Eg Eq Fc (fun _ => UG));
+      [intros B; contradiction|exact Fa| |exact Fs|exact Fn].
+    unfold linkedp, G. simpl. rewrite Fn. intros [N|[_ (r & f0 & p & E)]]; [left; exact N|].
+    injection E as E _ _. congruence. }
+  destruct c as [| |m|e|].
+  - (* pre_start *)
+    apply tinv_emit with (x := None); auto; try (intros ? ? [A|A]; discriminate); try (intros; discriminate).
+    eapply tinv_upd with (x := None) (a := a); [exact H|exact Eg|exact Fq|exact Fc|intros _; exact UG|left; reflexivity| |].
+    + intros B. contradiction.
+    + intros s El Ci. destruct Ci as [r p1 p2].
+      assert (EK : forall s0, K (upd w i G) s0 = K w s0).
+      { intros s0. apply (K_pw_same _ w _ s0 (pw_upd w i _)). intros j b Eb. cbv beta.
+        destruct (Nat.eqb_spec i j) as [<-|]; auto. rewrite Eg in Eb. injection Eb as <-. exact Fq. }
+      assert (Hb : blocked None w s -> blocked None (upd w i G) s).
+      { apply blocked_upd with (a := a); [exact Eg|left; reflexivity|intros B; contradiction]. }
+      constructor; unfold anyK, termK; rewrite ?EK; unfold G; simpl.
+      * intros _ L. unfold linkedp in L. simpl in L. destruct L as [N|[L _]].
+        -- rewrite Fn in N. destruct (r Harm (or_introl N)) as [B|B]; [left; congruence|right; apply Hb; exact B].
+        -- left. rewrite Fs. rewrite Fc in L. apply (Hloc eq_refl L s El).
+      * intros A. destruct (p1 A) as [B|B]; [left; exact B|right; apply Hb; exact B].
+      * rewrite Fn, Fa. intros N D. destruct (p2 N D) as [B|B]; [left; exact B|right; apply Hb; exact B].
+  - (* post_start *)
+    apply tinv_emit with (x := None); auto; try (intros ? ? [A|A]; discriminate); try (intros; discriminate).
+    + apply Hupd; [exact Fq|discriminate].
+    + intros j b [A|A] Eb; [discriminate|]. simpl in A. apply Nat.eqb_eq in A. subst j.
+      rewrite get_upd_same, Eg in Eb. injection Eb as <-. apply (U5 _ _ _ _ UG); simpl; [reflexivity|discriminate].
+  - (* a message handler *)
+    destruct Fq as [Eq0 Eq1].
+    apply tinv_emit with (x := None); auto; try (intros ? ? [A|A]; discriminate); try (intros; discriminate).
+    + apply Hupd; [simpl; congruence|discriminate].
+    + intros s m0 E. injection E as <- <-. split; [reflexivity|].
+      exists (G a). rewrite get_upd_same, Eg. unfold G. simpl.
+      repeat split; auto; try congruence; try discriminate.
+  - (* a supervision handler: the head of the queue *)
+    eapply tinv_deq_enter with (a := a) (t := a_supq (F a)); eauto; unfold G; simpl; auto.
+    + unfold start_from in Hfrom. destruct (a_pc a); try contradiction; reflexivity.
+    + unfold linkedp. simpl. rewrite Fn. intros [N|[_ (r & f0 & p & E)]]; [left; exact N|discriminate].
+  - (* post_stop *)
+    apply tinv_emit with (x := None); auto; try (intros ? ? [A|A]; discriminate); try (intros; discriminate).
+    apply Hupd; [exact Fq|discriminate].
+Qed.
+
+(* ------------------------------------------------------------------ *)
+(* linking to the supervisor                                            *)
+
+Lemma tinv_link_gen links (fin : bool) w i a s asup ks :
+  TInv links None w -> get w i = Some a -> c_link (a_cfg a) = Some s ->
+  get w s = Some asup -> a_kids asup = Some ks -> created asup = true -> a_armed a = true ->
+  (if fin then exists p, a_pc a = InCb PreStart [] ROk p else a_pc a = NotStarted) ->
+  TInv links None
+    (upd (upd w s (fun a0 => upd_kids a0 (Some (i :: remove_nat i ks)))) i
+         (fun a0 => if fin then upd_pc (upd_notify (upd_sup a0 (Some s)) true) Spawned
+                    else upd_sup a0 (Some s))).
+Proof.
+  intros H Eg Hl Egs Eks Hcr Harm Hfin.
+  set (wL := upd (upd w s (fun a0 => upd_kids a0 (Some (i :: remove_nat i ks)))) i
+                 (fun a0 => if fin then upd_pc (upd_notify (upd_sup a0 (Some s)) true) Spawned
+                            else upd_sup a0 (Some s))).
+  assert (Hpw : pw (Flk fin i s ks) w wL).
+  { eapply pw_ext; [|eapply pw_comp; apply pw_upd]. intros j b _. unfold Flk. cbv beta.
+    destruct (Nat.eqb s j), (Nat.eqb i j), fin; reflexivity. }
+  assert (Hpre : pre_pc (a_pc a) = true).
+  { destruct fin; [destruct Hfin as (p & ->)|rewrite Hfin]; reflexivity. }
+  assert (Hpcs : forall j b, get w j = Some b ->
+            a_sig (Flk fin i s ks j b) = a_sig b /\ a_sig_taken (Flk fin i s ks j b) = a_sig_taken b
+            /\ a_ports (Flk fin i s ks j b) = a_ports b
+            /\ (a_pc (Flk fin i s ks j b) = a_pc b \/ (j = i /\ fin = true /\ a_pc (Flk fin i s ks j b) = Spawned))).
+  { intros j b _. unfold Flk. destruct (Nat.eqb s j), (Nat.eqb_spec i j), fin; simpl; auto 8. }
+  assert (HK : forall s0, K wL s0 = K w s0).
+  { intros s0. apply (K_pw_same _ _ _ s0 Hpw). intros j b _. apply (Flk_fields fin i s ks j b). }
+  assert (Hb : forall s0, blocked None w s0 -> blocked None wL s0).
+  { intros s0. unfold blocked. destruct Hpw as [_ g]. rewrite g.
+    destruct (get w s0) as [b|] eqn:E; simpl; auto.
+    destruct (Hpcs s0 b E) as (-> & _ & _ & [-> |(-> & _ & P)]); auto.
+    rewrite Eg in E. injection E as <-.
+    intros [A|[A|[(r & f & p & A)|A]]]; auto; try discriminate; rewrite A in Hpre; discriminate. }
+  eapply tinv_pw with (x := None); [exact H|exact Hpw| | |].
+  - intros j b _. destruct (Flk_fields fin i s ks j b) as (A & B & _). auto.
+  - intros j b Eb [u1 u2 u3 u4 u5 u6 u7 u8 u9 u10].
+    destruct (Flk_fields fin i s ks j b) as (_ & _ & F3 & _ & F5 & F6 & F7).
+    destruct (Hpcs j b Eb) as (G1 & G2 & G3 & G4).
+    destruct G4 as [G4|(-> & -> & G4)].
+    + constructor; rewrite ?F3, ?F7, ?G1, ?G2, ?G3, ?G4; auto.
+      * intros Epc ks' Ek'. rewrite F6 in Ek'. destruct (Nat.eqb_spec s j) as [<-|]; [|eauto].
+        rewrite Egs in Eb. injection Eb as <-. unfold created in Hcr. rewrite Epc in Hcr. discriminate.
+      * intros A. rewrite F5. destruct (Nat.eqb i j && fin); auto.
+      * intros A B. rewrite F5. destruct (Nat.eqb i j && fin); auto.
+      * intros A. rewrite F5. destruct (Nat.eqb i j && fin) eqn:E; auto.
+        apply andb_true_iff in E as [E1 E2]. apply Nat.eqb_eq in E1. subst j.
+        rewrite Eg in Eb. injection Eb as <-. destruct fin; [|discriminate].
+        exfalso. rewrite <- G4 in A. unfold Flk in A. rewrite Nat.eqb_refl in A.
+        destruct (Nat.eqb s i); discriminate.
+    + rewrite Eg in Eb. injection Eb as <-.
+      constructor; rewrite ?F3, ?F7, ?G1, ?G2, ?G3, ?G4; auto; try (intros; discriminate).
+      * intros L. destruct (u1 L) as [A|[(r & f & p & A)|A]]; [|exfalso|discriminate].
+        -- rewrite A in Hpre. discriminate.
+        -- rewrite A in Hpre. discriminate.
+      * intros _. rewrite F5, Nat.eqb_refl. reflexivity.
+      * intros _ _. rewrite F5, Nat.eqb_refl. reflexivity.
+      * intros P. apply u7 in P. rewrite P in Hpre. discriminate.
+      * intros P. congruence.
+      * intros P. destruct (u9 P) as [A|[A|A]]; auto. rewrite A in Hpre. discriminate.
+  - intros c b s0 Eb El Cb.
+    destruct (Flk_fields fin i s ks c b) as (_ & Fc & F3 & F4 & F5 & _).
+    destruct (Hpcs c b Eb) as (_ & _ & _ & G4).
+    destruct (Nat.eqb_spec i c) as [<-|Hne].
+    + rewrite Eg in Eb. injection Eb as <-. assert (s0 = s) by congruence. subst s0.
+      destruct Cb as [r p1 p2]. constructor; unfold anyK, termK; rewrite ?HK.
+      * intros _ _. left. exact F4.
+      * rewrite (trace_of_pw _ _ _ Hpw). intros A. destruct (p1 A) as [B|B]; auto.
+      * rewrite F3, Harm. intros; discriminate.
+    + simpl in F4, F5.
+      destruct G4 as [G4|(E & _)]; [|congruence].
+      eapply cinv_keep;
+        [exact Cb|apply (trace_of_pw _ _ _ Hpw)|intros y; rewrite HK; auto|apply Hb|congruence
+        | |intros _ _; left; exact F4|congruence|intros D; left; congruence].
+      unfold linkedp. rewrite F5, Fc, G4. auto.
+Qed.
+
+Lemma tinv_try_link links (fin : bool) w i a s w1 :
+  TInv links None w -> get w i = Some a -> c_link (a_cfg a) = Some s -> a_armed a = true ->
+  (if fin then exists p, a_pc a = InCb PreStart [] ROk p else a_pc a = NotStarted) ->
+  try_link w i s = (w1, true) ->
+  TInv links None (if fin then upd w1 i (fun a0 => upd_pc (upd_notify a0 true) Spawned) else w1).
+Proof.
+  intros H Eg Hl Harm Hfin Etl. unfold try_link in Etl. rewrite Eg in Etl.
+  destruct (get w s) as [asup|] eqn:Egs; [|discriminate].
+  destruct (Nat.leb 4 (a_status a) || Nat.leb 4 (a_status asup) || negb (created asup)) eqn:Ec; [discriminate|].
+  apply orb_false_iff in Ec as [_ Ec]. apply negb_false_iff in Ec.
+  destruct (a_kids asup) as [ks|] eqn:Eks; [|discriminate].
+  injection Etl as <-.
+  pose proof (tinv_link_gen links fin w i a s asup ks H Eg Hl Egs Eks Ec Harm Hfin) as G.
+  destruct fin; [rewrite upd_upd|]; exact G.
+Qed.
+
+Lemma notify_emit w e i ev : notify_supervisor (emit w e) i ev = emit (notify_supervisor w i ev) e.
+Proof.
+  unfold notify_supervisor. rewrite !get_emit. destruct (get w i) as [a|]; auto.
+  destruct (a_sup a) as [s|]; auto. rewrite get_emit. destruct (get w s) as [b|]; auto.
+  destruct (a_ports b); reflexivity.
+Qed.
+
+Lemma UInv_pc tr x i a q :
+  UInv tr x i a -> a_pc a <> Done -> q <> Done -> q <> NotCreated ->
+  (5 <= a_status a -> (exists r f p, q = InCb PostStop r f p) \/ x = Some i) ->
+  (pre_pc q = false -> a_notify a = true) -> (pre_pc q = true -> a_notify a = false) ->
+  UInv tr x i (upd_pc a q).
+Proof.
+  intros [u1 u2 u3 u4 u5 u6 u7 u8 u9 u10] Hnd Hq1 Hq2 Hst Hn1 Hn2.
+  constructor; simpl.
+  - intros L. destruct (Hst L) as [A|A]; auto.
+  - intros E. congruence.
+  - exact u3.
+  - exact u4.
+  - intros P _. auto.
+  - exact u6.
+  - intros P. exfalso. auto.
+  - intros P. exfalso. auto.
+  - intros P. destruct (u9 P) as [A|[A|A]]; auto; contradiction.
+  - exact Hn2.
+Qed.
+
+Lemma UInv_status tr x i a v : v < 5 -> UInv tr x i a -> UInv tr x i (upd_status a v).
+Proof.
+  intros Hv [u1 u2 u3 u4 u5 u6 u7 u8 u9 u10]. constructor; simpl; auto.
+  intros L. apply u1. lia.
+Qed.
+
+(* ------------------------------------------------------------------ *)
+(* a callback returns                                                   *)
+
+Lemma tinv_after_cb links w i a c f p :
+  TInv links None w -> get w i = Some a -> a_pc a = InCb c [] f p -> a_armed a = true ->
+  TInv links None (after_cb (emit w (TExit i c f)) i c f).
+Proof.
+  intros H Eg Epc Harm.
+  pose proof (t_act _ _ _ H i a Eg) as Ua.
+  set (e := TExit i c f). set (wx := emit w e).
+  assert (Egx : get wx i = Some a) by exact Eg.
+  assert (Hsub : forall j, p_sok j e = false /\ p_eps j e = false /\ p_end j e = false) by (intros j; auto).
+  assert (HX : forall x', (p_over i e = true -> x' = Some i) -> p_pso i e = false -> TInv links x' wx).
+  { intros x' Ho Hp. apply tinv_emit with (x := None); auto; try (intros; discriminate).
+    - intros j b [A|A]; discriminate.
+    - intros j b [A|A] Eb; [|discriminate]. right.
+      assert (j = i) by (unfold e in A; simpl in A; destruct c, f; try discriminate; apply Nat.eqb_eq in A; auto).
+      subst j. auto.
+    - intros j b s A. exfalso. assert (j = i).
+      { unfold e in A. simpl in A. destruct c; try discriminate; destruct f; try discriminate. apply Nat.eqb_eq in A; auto. }
+      subst j. congruence. }
+  assert (Hidle : TInv links None wx -> c <> PreStart -> c <> PostStop ->
+                  TInv links None (upd wx i (fun a0 => upd_pc a0 Idle))).
+  { intros Hx Hc1 Hc2.
+    assert (Hpre : pre_pc (a_pc a) = false) by (rewrite Epc; destruct c; try reflexivity; congruence).
+    assert (Hnd : a_pc a <> Done) by (rewrite Epc; discriminate).
+    assert (Hnp : forall r f0 p0, a_pc a <> InCb PostStop r f0 p0).
+    { intros r f0 p0 E. rewrite Epc in E. injection E as E _ _ _. congruence. }
+    apply (tinv_upd_plain links None wx i (fun a0 => upd_pc a0 Idle) a Hx Egx eq_refl eq_refl).
+    - intros Ux. apply UInv_pc; auto; try discriminate.
+      + intros L. destruct (U1 _ _ _ _ Ux L) as [A|[(r & f0 & p0 & A)|A]];
+          [contradiction|exfalso; eapply Hnp; eauto|discriminate].
+      + intros _. apply (U5 _ _ _ _ Ux); auto.
+    - unfold blocked. rewrite get_upd_same, Egx. simpl.
+      intros [A|[A|[(r & f0 & p0 & A)|A]]]; auto; try contradiction; exfalso; eapply Hnp; eauto.
+    - reflexivity.
+    - unfold linkedp. simpl. intros [N|[_ (r & f0 & p0 & E)]]; [left; exact N|discriminate].
+    - reflexivity.
+    - reflexivity. }
+  assert (Hfail : forall t, TInv links (Some i) wx ->
+            TInv links None (finish wx i (SFailed i t)) /\
+            TInv links None (finish (upd wx i (fun a0 => upd_status a0 5)) i (SFailed i t))).
+  { intros t Hx. split.
+    - eapply tinv_finish; eauto.
+    - eapply tinv_finish with (a := upd_status a 5); auto.
+      + apply (tinv_upd_plain links (Some i) wx i (fun a0 => upd_status a0 5) a Hx Egx eq_refl eq_refl); auto.
+        * clear. uinv_tac.
+        * unfold blocked. rewrite get_upd_same, Egx. simpl. auto.
+      + rewrite get_upd_same, Egx. reflexivity. }
+  unfold after_cb. rewrite Egx.
+  destruct c as [| |m|ev|]; destruct f as [|t|t];
+    try (apply Hfail; apply HX; [reflexivity|reflexivity]);
+    try (apply Hidle; [apply HX; [discriminate|reflexivity]|discriminate|discriminate]).
+  - (* pre_start Ok *)
+    assert (Hx : forall x', TInv links x' wx) by (intros x'; apply HX; [discriminate|reflexivity]).
+    assert (Hn0 : a_notify a = false) by (apply (U10 _ _ _ _ Ua); rewrite Epc; reflexivity).
+    destruct (if c_local (a_cfg a) then None else c_link (a_cfg a)) as [s|] eqn:El.
+    + assert (El' : c_link (a_cfg a) = Some s) by (destruct (c_local (a_cfg a)); [discriminate|exact El]).
+      destruct (try_link wx i s) as [w1 ok] eqn:Etl. destruct ok.
+      * apply tinv_emit with (x := None); auto; try (intros; discriminate).
+        -- apply (tinv_try_link links true wx i a s w1 (Hx None) Egx El' Harm); [eauto|exact Etl].
+        -- intros j b [A|A] Eb; [|discriminate]. simpl in A. apply Nat.eqb_eq in A. subst j.
+           rewrite get_upd_same in Eb. destruct (get w1 i); simpl in Eb; [|discriminate].
+           injection Eb as <-. reflexivity.
+        -- intros j b [A|A]; discriminate.
+      * assert (E1 : w1 = wx) by (rewrite <- (try_link_false wx i s); rewrite Etl; reflexivity).
+        rewrite E1. eapply tinv_start_failed; eauto.
+    + apply tinv_emit with (x := None); auto; try (intros; discriminate).
+      * eapply tinv_upd with (x := None) (a := a); [apply Hx|exact Egx|reflexivity|reflexivity| |left; reflexivity| |].
+        -- intros Ux. assert (Hnd : a_pc a <> Done) by (rewrite Epc; discriminate).
+           destruct Ux as [u1 u2 u3 u4 u5 u6 u7 u8 u9 u10]. constructor; simpl.
+           ++ intros L. destruct (u1 L) as [A|[(r & f0 & p0 & A)|A]];
+                [contradiction|rewrite Epc in A; discriminate|discriminate].
+           ++ intros; discriminate.
+           ++ intros _. reflexivity.
+           ++ exact u4.
+           ++ intros _ _. reflexivity.
+           ++ exact u6.
+           ++ intros P. exfalso. auto.
+           ++ intros P. exfalso. auto.
+           ++ intros P. destruct (u9 P) as [A|[A|A]]; auto; contradiction.
+           ++ intros; discriminate.
+        -- unfold blocked. rewrite get_upd_same, Egx. simpl.
+           intros [A|[A|[(r & f0 & p0 & A)|A]]]; auto; rewrite Epc in A; discriminate.
+        -- intros s Els Ci. destruct Ci as [r p1 p2].
+           assert (Hloc : c_local (a_cfg a) = true) by (destruct (c_local (a_cfg a)); [reflexivity|congruence]).
+           assert (EK : forall s0, K (upd wx i (fun a0 => upd_pc (upd_notify a0 true) Spawned)) s0 = K wx s0).
+           { intros s0. apply (K_pw_same _ wx _ s0 (pw_upd wx i _)). intros j b _. cbv beta.
+             destruct (Nat.eqb i j); reflexivity. }
+           assert (Hb : blocked None wx s -> blocked None (upd wx i (fun a0 => upd_pc (upd_notify a0 true) Spawned)) s).
+           { apply blocked_upd with (a := a); [exact Egx|left; reflexivity|].
+             unfold blocked. rewrite get_upd_same, Egx. simpl.
+             intros [A|[A|[(r0 & f0 & p0 & A)|A]]]; auto; rewrite Epc in A; discriminate. }
+           constructor; unfold anyK, termK; rewrite ?EK; simpl.
+           ++ intros _ _. destruct (r Harm) as [B|B]; auto. right. rewrite Epc. eauto.
+           ++ intros A. destruct (p1 A) as [B|B]; auto.
+           ++ rewrite Harm. intros; discriminate.
+      * intros j b [A|A] Eb; [|discriminate]. simpl in A. apply Nat.eqb_eq in A. subst j.
+        rewrite get_upd_same, Egx in Eb. injection Eb as <-. reflexivity.
+      * intros j b [A|A]; discriminate.
+  - (* pre_start failed *)
+    apply (tinv_start_failed links wx i a); [apply HX; [discriminate|reflexivity]|exact Egx|exact Harm|].
+    apply (U10 _ _ _ _ Ua). rewrite Epc. reflexivity.
+  - apply (tinv_start_failed links wx i a); [apply HX; [discriminate|reflexivity]|exact Egx|exact Harm|].
+    apply (U10 _ _ _ _ Ua). rewrite Epc. reflexivity.
+  - (* post_start Ok: Idle, ActorStarted to the supervisor, then the event is logged *)
+    set (g := fun a0 => upd_pc (upd_status a0 2) Idle).
+    change (TInv links None (notify_supervisor (emit (upd w i g) e) i (SStarted i))).
+    rewrite notify_emit.
+    assert (Hn : a_notify a = true) by (apply (U5 _ _ _ _ Ua); rewrite Epc; [reflexivity|discriminate]).
+    assert (H1 : TInv links None (upd w i g)).
+    { assert (Hnd : a_pc a <> Done) by (rewrite Epc; discriminate).
+      apply (tinv_upd_plain links None w i g a H Eg eq_refl eq_refl).
+      - intros Ux. unfold g. apply UInv_pc; simpl; auto; try discriminate.
+        + apply UInv_status; [lia|exact Ux].
+        + intros L. assert (L' : 5 <= a_status a) by lia.
+          destruct (U1 _ _ _ _ Ux L') as [A|[(r & f0 & p0 & A)|A]];
+            [contradiction|rewrite Epc in A; discriminate|discriminate].
+      - unfold blocked. rewrite get_upd_same, Eg. unfold g. simpl.
+        intros [A|[A|[(r0 & f0 & p0 & A)|A]]]; auto; rewrite Epc in A; discriminate.
+      - reflexivity.
+      - unfold linkedp, g. simpl. intros [N|[_ (r & f0 & p0 & E)]]; [left; exact N|discriminate].
+      - reflexivity.
+      - reflexivity. }
+    assert (Eg1 : get (upd w i g) i = Some (g a)) by (rewrite get_upd_same, Eg; reflexivity).
+    apply tinv_emit with (x := None); auto; try (intros; discriminate).
+    + apply tinv_notify. exact H1.
+    + intros j b [A|A]; discriminate.
+    + intros j b [A|A]; discriminate.
+    + intros j b s A Eb El. simpl in A. apply Nat.eqb_eq in A. subst j.
+      assert (Eb1 : exists b1, get (upd w i g) i = Some b1 /\ a_cfg b1 = a_cfg b).
+      { destruct (notify_get _ _ _ _ _ Eb) as (b1 & E1 & [ -> | -> ]); eauto. }
+      destruct Eb1 as (b1 & E1 & Ec1). rewrite Eg1 in E1. injection E1 as <-.
+      rewrite <- Ec1 in El.
+      destruct (notify_known links None (upd w i g) i (g a) (SStarted i) s H1 Eg1 El) as [B|B]; auto.
+      * left. exact Hn.
+      * left. exists (SStarted i). auto.
+  - (* post_stop Ok *)
+    apply (tinv_finish links wx i a); [apply HX; [reflexivity|reflexivity]|exact Egx|exact Harm|reflexivity|reflexivity].
 Qed.
